@@ -219,5 +219,7 @@ func VfC12_malformed() {
 	} else {
 		vfReach("delete-of-absent-key")
 	}
+	// the server is not wedged: every instance still serves a write and a read
+	s.masterRIB.VfLockProbe()
 	vfReach("end")
 }
